@@ -177,6 +177,11 @@ func UnzipToFolder(zipFile, destDir string) error {
 			continue
 		}
 
+		destFile := filepath.Join(destDir, z.Name)
+		if !insideDir(destDir, destFile) {
+			return fmt.Errorf("UnzipToFolder: the entry \"%s\" would be extracted outside of %s: %w", z.Name, destDir, os.ErrInvalid)
+		}
+
 		partPath, _ := filepath.Split(z.Name)
 		destPath := filepath.Join(destDir, partPath)
 		if !pathChecked[destPath] {
@@ -192,7 +197,6 @@ func UnzipToFolder(zipFile, destDir string) error {
 			return fmt.Errorf("UnzipToFolder: cannot open file \"%s\" in the ziputil archive: %w", z.Name, err)
 		}
 
-		destFile := filepath.Join(destDir, z.Name)
 		out, err := os.Create(destFile)
 		if err != nil {
 			in.Close()
@@ -208,6 +212,15 @@ func UnzipToFolder(zipFile, destDir string) error {
 	}
 
 	return nil
+}
+
+// insideDir reports whether the cleaned path lies in dir (or is dir itself)
+func insideDir(dir, path string) bool {
+	dir = filepath.Clean(dir)
+	if path == dir || dir == string(filepath.Separator) {
+		return true
+	}
+	return strings.HasPrefix(path, dir+string(filepath.Separator))
 }
 
 // CreateRandomDir creates a randomly name directory in the path with prefix
